@@ -1837,3 +1837,18 @@ V(id='c34-boundary-before-segment', prop='C34', file='mpmath/calculus/odes.py',
 V(id='c34-no-repair', prop='C34', file='mpmath/calculus/odes.py',
   old="        if len(series_boundaries) <= len(series_data):\n            # an interrupted extension stored a segment without its boundary\n            series_boundaries.append(series_data[len(series_boundaries)-1][2])\n",
   new="", expect='fire:O-R2:get_series')
+
+# ---- C24 T-R9 / T-R10 (fixes 7fb91fb, eaa1a74) ----
+V(id='c24-expint-no-divergence-exit', prop='C24', file='mpmath/libmp/libhyper.py',
+  old="                u = (m*r*t) >> wp\n                if m > 0 and abs(u) >= abs(t):\n                    # the terms of the divergent series grow again before\n                    # having reached the tolerance (the size estimate\n                    # above was too optimistic)\n                    raise NotImplementedError\n                t = u",
+  new="                t = (m*r*t) >> wp", expect='fire:T-R9:mpf_expint')
+V(id='c24-erfc-no-divergence-exit', prop='C24', file='mpmath/libmp/libhyper.py',
+  old="        if k > 4 and term > term_prev or not term:", new="        if not term:",
+  expect='fire:T-R9:mpf_erfc')
+V(id='c24-gamma3-two-limit-reentry', prop='C24', file='mpmath/functions/expintegrals.py',
+  old="            T1 = b and ctx._lower_gamma(z, b, regularized)\n            T2 = a and ctx._lower_gamma(z, a, regularized)",
+  new="            T1 = ctx.gammainc(z, 0, b, regularized=regularized)\n            T2 = ctx.gammainc(z, 0, a, regularized=regularized)",
+  expect='fire:T-R10:_gamma3')
+V(id='c24-expint-exit-benign-form', prop='C24', file='mpmath/libmp/libhyper.py',
+  old="                if m > 0 and abs(u) >= abs(t):", new="                if m > 0 and not abs(t) > abs(u):",
+  expect='silent')
